@@ -26,6 +26,24 @@ the recorded finding c05-bigint-pow, and everything proved is about evaluations 
 
 Property keys are converted (ToPropertyKey, an event when the key is an object) at every property read and
 write, as V8 does (Node 20: `o[k] ||= 1` calls `k.toString()` twice, natively and lowered alike).
+
+Calls, `this`, tagged templates, delete (work package taggedlower; lowerOptionalChain in full except `super` and
+private names, lowerParenthesizedOptionalChain, lowerTemplateLiteral with a tag, and the parts of the ECall / EDot /
+EIndex / EUnary(delete) / ETemplate visitors that pass `storeThisArgForParentOptionalChain` down and
+`thisArgFunc` / `thisArgWrapFunc` up):
+* function objects are values `fn i`; calling one is the event `callf i this args` (the world runs the body), calling
+  anything else is a TypeError AFTER the arguments have been evaluated (EvaluateCall);
+* `S.vcall` is a call / optional call / tagged template whose callee is not a property access (`this` undefined),
+  `S.mcall` one whose callee is `o.p`, `o?.p`, `o[k]`, `o?.[k]` in the three ways esbuild tells apart: plain
+  (`o?.p(a)`: the call continues the chain and stays a method call), optional (`o.p?.(a)`: the base is captured and
+  the call becomes `_b.call(_a, a)`), parenthesised (`(o?.p)(a)` / `(o?.p)`x``: the parentheses end the chain, the
+  base is captured for `.call(_a, a)`); at most two arguments / substitutions;
+* `f.call(t, …)` (`T.callCall`) throws on a null / undefined `f` BEFORE `t` and the arguments are evaluated, is
+  Function.prototype.call for a function, and (assumption of the model) is absent, unobservably, on anything else;
+* `delete` of a property is the event `del o k`; `delete` of a chain that is cut short gives `true`;
+* a tagged-template site has a strings array `tpl site gen`; natively GetTemplateObject creates it on first use and
+  caches it (`H.tcell`, `H.tgen`: invisible to the world), esbuild emits `_t || (_t = __template([…]))` with a
+  top-level temporary per site (`T.tcell`, `T.setCell`, `T.mkTpl`: `__template` makes a NEW array on every call).
 -/
 import EsbuildModel.Util.Wire
 namespace EsbuildModel.Lower2
@@ -39,6 +57,9 @@ inductive Val where
   | str (s : String)
   | sym (id : Nat)
   | obj (id : Nat)
+  | bool (b : Bool)
+  | fn (id : Nat)                  -- an ordinary function object (callable; its `call` is Function.prototype.call)
+  | tpl (site : Nat) (gen : Nat)   -- the `gen`-th strings array created for the tagged template `site`
 deriving DecidableEq, Repr
 
 def Val.nullish : Val → Bool
@@ -56,6 +77,16 @@ def Val.truthy : Val → Bool
   | .str s => s != ""
   | .sym _ => true
   | .obj _ => true
+  | .bool b => b
+  | .fn _ => true
+  | .tpl _ _ => true
+
+/-- objects: ToPrimitive asks the world -/
+def Val.isObj : Val → Bool
+  | .obj _ => true
+  | .fn _ => true
+  | .tpl _ _ => true
+  | _ => false
 
 inductive Exc where
   | typeError          -- thrown by the language itself
@@ -70,6 +101,8 @@ inductive Ev where
   | set (o : Val) (k : Val) (v : Val)
   | toPrimS (o : Val)     -- ToPrimitive, hint string: property keys, template substitutions, String.prototype.concat
   | toPrimN (o : Val)     -- ToPrimitive, hint number: operands of `**` and Math.pow
+  | callf (f : Nat) (this : Val) (args : List Val)   -- the function object `fn f` is called
+  | del (o : Val) (k : Val)                          -- `delete o[k]` (deleteProperty)
 deriving DecidableEq, Repr
 
 abbrev Trace := List Ev
@@ -87,10 +120,17 @@ structure World where
   primNum : Val → Option Int
   /-- Number::exponentiate; none: NaN -/
   numPow : Option Int → Option Int → Option Int
+  /-- the value of `this` in the function the expression is part of -/
+  thisVal : Val
 
 structure H where
   tr : Trace
   env : Env
+  /-- the strings array cached for a tagged-template site: the realm's [[TemplateMap]] in the source semantics, the
+  top-level temporary `_t` of the site in the emitted code (`none`: still undefined); invisible to the world -/
+  tcell : Nat → Option Nat := fun _ => none
+  /-- how many strings arrays have been created for a site so far (object identity: a new array each time) -/
+  tgen : Nat → Nat := fun _ => 0
 
 inductive Res where
   | val (v : Val)
@@ -107,18 +147,15 @@ def upd (f : Nat → Val) (k : Nat) (v : Val) : Nat → Val := fun j => if j = k
 
 def doEv (w : World) (ev : Ev) (h : H) : Res × H :=
   match w.host ev h.tr h.env with
-  | (.ret v, env') => (.val v, ⟨h.tr ++ [ev], env'⟩)
-  | (.throw v, env') => (.err (.host v), ⟨h.tr ++ [ev], env'⟩)
+  | (.ret v, env') => (.val v, { h with tr := h.tr ++ [ev], env := env' })
+  | (.throw v, env') => (.err (.host v), { h with tr := h.tr ++ [ev], env := env' })
 
 /-- ToPrimitive: an event for objects (a result that is again an object is a TypeError), nothing otherwise -/
 def toPrim (w : World) (hintString : Bool) (v : Val) (h : H) : Res × H :=
-  match v with
-  | .obj i =>
-    bindR (doEv w (if hintString then .toPrimS (.obj i) else .toPrimN (.obj i)) h) fun p h1 =>
-      match p with
-      | .obj _ => (.err .typeError, h1)
-      | p => (.val p, h1)
-  | v => (.val v, h)
+  if v.isObj then
+    bindR (doEv w (if hintString then .toPrimS v else .toPrimN v) h) fun p h1 =>
+      if p.isObj then (.err .typeError, h1) else (.val p, h1)
+  else (.val v, h)
 
 /-- property read `ov[kv]` once both are values -/
 def getProp (w : World) (ov kv : Val) (h : H) : Res × H :=
@@ -145,6 +182,9 @@ def primStr : Val → Option String
   | .str s => some s
   | .sym _ => none
   | .obj _ => none
+  | .bool b => some (if b then "true" else "false")
+  | .fn _ => none
+  | .tpl _ _ => none
 
 /-- ToString -/
 def toStr (w : World) (v : Val) (h : H) : Res × H :=
@@ -172,6 +212,8 @@ def toNumeric (w : World) (v : Val) (h : H) : Res × H :=
     | .big n => (.val (.big n), h1)
     | .sym _ => (.err .typeError, h1)
     | .obj _ => (.err .typeError, h1)
+    | .fn _ => (.err .typeError, h1)
+    | .tpl _ _ => (.err .typeError, h1)
     | p => (.val (Val.ofNum (w.primNum p)), h1)
 
 /-- `l ** r` and `Math.pow(l, r)` as far as the model goes: both convert the left operand, then the right one,
@@ -207,6 +249,84 @@ def mathPowFull (w : World) (l r : Val) (h : H) : Res × H :=
         | none => (.err .typeError, h2)
     | none => (.err .typeError, h1)
 
+-- ---------------------------------------------------------------- calls, delete, template objects
+
+/-- argument lists: at most three arguments are modelled -/
+inductive ARes where
+  | vals (vs : List Val)
+  | err (x : Exc)
+deriving DecidableEq, Repr
+
+/-- evaluate the first `n` (at most 3) of three argument expressions, left to right -/
+def args3 {σ : Type} (n : Nat) (fa fb fc : σ → Res × σ) (s : σ) : ARes × σ :=
+  match n with
+  | 0 => (.vals [], s)
+  | n + 1 =>
+    match fa s with
+    | (.err x, s1) => (.err x, s1)
+    | (.val a, s1) =>
+      match n with
+      | 0 => (.vals [a], s1)
+      | n + 1 =>
+        match fb s1 with
+        | (.err x, s2) => (.err x, s2)
+        | (.val b, s2) =>
+          match n with
+          | 0 => (.vals [a, b], s2)
+          | _ + 1 =>
+            match fc s2 with
+            | (.err x, s3) => (.err x, s3)
+            | (.val c, s3) => (.vals [a, b, c], s3)
+
+/-- [[Call]]: function objects are called (an event: the world runs the body), everything else is a TypeError -/
+def invoke (w : World) (fv thisv : Val) (args : List Val) (h : H) : Res × H :=
+  match fv with
+  | .fn i => doEv w (.callf i thisv args) h
+  | _ => (.err .typeError, h)
+
+/-- EvaluateCall once the callee and the `this` value are known: the arguments are evaluated first, then the
+callee is checked -/
+def callWith (w : World) (fv thisv : Val) (fargs : H → ARes × H) (h : H) : Res × H :=
+  match fargs h with
+  | (.err x, h1) => (.err x, h1)
+  | (.vals vs, h1) => invoke w fv thisv vs h1
+
+/-- `delete ov[kv]` once both are values -/
+def delProp (w : World) (ov kv : Val) (h : H) : Res × H :=
+  if ov.nullish then (.err .typeError, h)
+  else bindR (toPrim w true kv h) fun key h1 => bindR (doEv w (.del ov key) h1) fun r h2 => (.val (.bool r.truthy), h2)
+
+/-- GetTemplateObject(site): the array cached for the site, created on first use -/
+def getTpl (site : Nat) (h : H) : Res × H :=
+  match h.tcell site with
+  | some g => (.val (.tpl site g), h)
+  | none =>
+    (.val (.tpl site (h.tgen site)),
+      { h with tcell := fun j => if j = site then some (h.tgen site) else h.tcell j,
+               tgen := fun j => if j = site then h.tgen site + 1 else h.tgen j })
+
+/-- `__template([...])`: a new array -/
+def mkTplObj (site : Nat) (h : H) : Res × H :=
+  (.val (.tpl site (h.tgen site)), { h with tgen := fun j => if j = site then h.tgen site + 1 else h.tgen j })
+
+/-- a property link: `.pN` or `[k]` -/
+inductive Link where
+  | dot (p : Nat)
+  | idx
+deriving DecidableEq, Repr
+
+/-- how a member expression is called: `o.p(a)`, `o.p?.(a)`, `(o.p)(a)` (the parentheses end an optional chain
+inside, the call still gets `this = o`) -/
+inductive CMode where
+  | plain | opt | paren
+deriving DecidableEq, Repr
+
+/-- a tagged-template site: its number and its (cooked = raw) strings -/
+structure TplSite where
+  site : Nat
+  strs : List String
+deriving DecidableEq, Repr
+
 -- ---------------------------------------------------------------- source language
 
 inductive AOp where
@@ -227,6 +347,16 @@ inductive S where
   | asgVar (x : Nat) (op : AOp) (r : S)
   | asgDot (o : S) (p : Nat) (op : AOp) (r : S)
   | asgIdx (o k : S) (op : AOp) (r : S)
+  | this
+  | optIdx (o k : S)                       -- o?.[k]
+  /-- `f(a, b)` / `f?.(a, b)` / f`…${a}…${b}…` where `f` is not a member expression (`this` is undefined);
+  `n ≤ 2` arguments are used -/
+  | vcall (opt : Bool) (tpl : Option TplSite) (f : S) (n : Nat) (a b : S)
+  /-- a call (or tagged template) whose callee is the member expression `o.p` / `o?.p` / `o[k]` / `o?.[k]`
+  (`k` is only used by `Link.idx`) -/
+  | mcall (mode : CMode) (tpl : Option TplSite) (optLink : Bool) (lk : Link) (o k : S) (n : Nat) (a b : S)
+  | del (optLink : Bool) (lk : Link) (o k : S)   -- delete o.p / o?.p / o[k] / o?.[k]
+  | delVal (a : S)                          -- delete of something that is not a property reference (a call)
 deriving Repr
 
 /-- result of evaluating a (piece of an) optional chain -/
@@ -256,6 +386,73 @@ def assignOp (w : World) (op : AOp) (lval : Val) (rhs : H → Res × H) (put : V
   | .and => if lval.truthy then bindR (rhs h) put else (.val lval, h)
   | .nul => if lval.nullish then bindR (rhs h) put else (.val lval, h)
   | .pow => bindR (rhs h) fun rv h1 => bindR (powOp w lval rv h1) put
+
+/-- the property read of a link on the base `ov` -/
+def linkGet (w : World) (lk : Link) (fk : H → Res × H) (ov : Val) (h : H) : Res × H :=
+  match lk with
+  | .dot p => getProp w ov (pkey p) h
+  | .idx => bindR (fk h) fun kv h1 => getProp w ov kv h1
+
+def linkDel (w : World) (lk : Link) (fk : H → Res × H) (ov : Val) (h : H) : Res × H :=
+  match lk with
+  | .dot p => delProp w ov (pkey p) h
+  | .idx => bindR (fk h) fun kv h1 => delProp w ov kv h1
+
+/-- the arguments of a call: the template object first if this is a tagged template -/
+def argsS (tpl : Option TplSite) (n : Nat) (fa fb : H → Res × H) : H → ARes × H :=
+  match tpl with
+  | none => args3 (min n 2) fa fb fb
+  | some t => args3 (min n 2 + 1) (getTpl t.site) fa fb
+
+/-- a callee that is a member expression: the function and the base object (the `this` of the call) -/
+inductive MRes where
+  | val (f base : Val)
+  | short
+  | err (x : Exc)
+deriving DecidableEq, Repr
+
+def memSem (optLink : Bool) (ro : CRes × H) (get : Val → H → Res × H) : MRes × H :=
+  match ro with
+  | (.err x, h1) => (.err x, h1)
+  | (.short, h1) => (.short, h1)
+  | (.val ov, h1) =>
+    if optLink && ov.nullish then (.short, h1)
+    else
+      match get ov h1 with
+      | (.err x, h2) => (.err x, h2)
+      | (.val fv, h2) => (.val fv ov, h2)
+
+/-- a call of a member expression.  Cut short: the whole call is cut short, except that parentheses end the chain
+(the callee is then undefined, which is a TypeError after the arguments have been evaluated). -/
+def mcallSem (w : World) (mode : CMode) (m : MRes × H) (fargs : H → ARes × H) : CRes × H :=
+  match m with
+  | (.err x, h1) => (.err x, h1)
+  | (.short, h1) =>
+    match mode with
+    | .paren => toCP (callWith w .undef .undef fargs h1)
+    | _ => (.short, h1)
+  | (.val fv ov, h1) =>
+    match mode with
+    | .opt => if fv.nullish then (.short, h1) else toCP (callWith w fv ov fargs h1)
+    | _ => toCP (callWith w fv ov fargs h1)
+
+def vcallSem (w : World) (opt : Bool) (rf : CRes × H) (fargs : H → ARes × H) : CRes × H :=
+  match rf with
+  | (.err x, h1) => (.err x, h1)
+  | (.short, h1) => (.short, h1)
+  | (.val fv, h1) => if opt && fv.nullish then (.short, h1) else toCP (callWith w fv .undef fargs h1)
+
+/-- `delete` of a property reference: `true` when the chain is cut short -/
+def delSem (optLink : Bool) (ro : CRes × H) (del : Val → H → Res × H) : CRes × H :=
+  match ro with
+  | (.err x, h1) => (.err x, h1)
+  | (.short, h1) => (.val (.bool true), h1)
+  | (.val ov, h1) => if optLink && ov.nullish then (.val (.bool true), h1) else toCP (del ov h1)
+
+def delValSem (r : CRes × H) : CRes × H :=
+  match r with
+  | (.err x, h1) => (.err x, h1)
+  | (_, h1) => (.val (.bool true), h1)
 
 /-- source semantics; `evalC` may report that the chain was cut short, every other context turns that into
 `undefined` -/
@@ -303,6 +500,20 @@ def evalC (w : World) : S → H → CRes × H
       bindR (topP (evalC w k h1)) fun kv h2 =>
         bindR (getProp w ov kv h2) fun lval h3 =>
           assignOp w op lval (fun h4 => topP (evalC w r h4)) (setProp w ov kv) h3)
+  | .this, h => (.val w.thisVal, h)
+  | .optIdx o k, h =>
+    match evalC w o h with
+    | (.err x, h1) => (.err x, h1)
+    | (.short, h1) => (.short, h1)
+    | (.val v, h1) =>
+      if v.nullish then (.short, h1) else toCP (bindR (topP (evalC w k h1)) fun kv h2 => getProp w v kv h2)
+  | .vcall opt tpl f n a b, h =>
+    vcallSem w opt (evalC w f h) (argsS tpl n (fun h1 => topP (evalC w a h1)) (fun h1 => topP (evalC w b h1)))
+  | .mcall mode tpl optLink lk o k n a b, h =>
+    mcallSem w mode (memSem optLink (evalC w o h) (linkGet w lk (fun h1 => topP (evalC w k h1))))
+      (argsS tpl n (fun h1 => topP (evalC w a h1)) (fun h1 => topP (evalC w b h1)))
+  | .del optLink lk o k, h => delSem optLink (evalC w o h) (linkDel w lk (fun h1 => topP (evalC w k h1)))
+  | .delVal a, h => delValSem (evalC w a h)
 
 def evalS (w : World) (e : S) (h : H) : Res × H := topP (evalC w e h)
 
@@ -325,6 +536,17 @@ inductive T where
   | setIdx (o k : T) (e : T)          -- o[k] = e
   | pow (a b : T)                     -- __pow(a, b), __pow = Math.pow captured when the file starts
   | concat (base sub : T) (tail : Option String)   -- base.concat(sub) / base.concat(sub, "tail")
+  | this
+  | callV (f : T) (n : Nat) (a b c : T)             -- f(a, b, c): the first n ≤ 3 arguments; `this` is undefined
+  | callDot (o : T) (p : Nat) (n : Nat) (a b c : T) -- o.p(a, b, c): `this` is o
+  | callIdx (o k : T) (n : Nat) (a b c : T)         -- o[k](a, b, c)
+  | callCall (f t : T) (n : Nat) (a b c : T)        -- f.call(t, a, b, c)
+  | delDot (o : T) (p : Nat)                        -- delete o.p
+  | delIdx (o k : T)                                -- delete o[k]
+  | delV (e : T)                                    -- delete e, e not a property reference
+  | tcell (site : Nat)                              -- the top-level temporary of a tagged-template site
+  | setCell (site : Nat) (e : T)                    -- … = e
+  | mkTpl (site : Nat) (strs : List String)         -- __template([strs])
 deriving Repr
 
 structure TState where
@@ -334,6 +556,11 @@ structure TState where
 /-- an operation on the user-visible state, run in a state with temporaries -/
 def liftH (f : H → Res × H) (s : TState) : Res × TState :=
   ((f s.h).1, { s with h := (f s.h).2 })
+
+def callWithT (w : World) (fv thisv : Val) (fargs : TState → ARes × TState) (s : TState) : Res × TState :=
+  match fargs s with
+  | (.err x, s1) => (.err x, s1)
+  | (.vals vs, s1) => liftH (invoke w fv thisv vs) s1
 
 def evalT (w : World) : T → TState → Res × TState
   | .id x, s => (.val (s.h.env x), s)
@@ -365,6 +592,34 @@ def evalT (w : World) : T → TState → Res × TState
             | .str ts, some tl => (.val (.str (bs ++ ts ++ tl)), s3)
             | _, _ => (.err .illFormed, s3)
       | _ => (.err .illFormed, s1)      -- esbuild only emits `.concat` on what started as a string literal
+  | .this, s => (.val w.thisVal, s)
+  | .callV f n a b c, s =>
+    bindR (evalT w f s) fun fv s1 => callWithT w fv .undef (args3 n (evalT w a) (evalT w b) (evalT w c)) s1
+  | .callDot o p n a b c, s =>
+    bindR (evalT w o s) fun ov s1 => bindR (liftH (getProp w ov (pkey p)) s1) fun fv s2 =>
+      callWithT w fv ov (args3 n (evalT w a) (evalT w b) (evalT w c)) s2
+  | .callIdx o k n a b c, s =>
+    bindR (evalT w o s) fun ov s1 => bindR (evalT w k s1) fun kv s2 => bindR (liftH (getProp w ov kv) s2) fun fv s3 =>
+      callWithT w fv ov (args3 n (evalT w a) (evalT w b) (evalT w c)) s3
+  | .callCall f t n a b c, s =>
+    -- `f.call`: a TypeError on null / undefined; Function.prototype.call for a function; undefined (and so a
+    -- TypeError once the arguments have been evaluated) for everything else
+    bindR (evalT w f s) fun fv s1 =>
+      if fv.nullish then (.err .typeError, s1)
+      else bindR (evalT w t s1) fun tv s2 => callWithT w fv tv (args3 n (evalT w a) (evalT w b) (evalT w c)) s2
+  | .delDot o p, s => bindR (evalT w o s) fun ov s1 => liftH (delProp w ov (pkey p)) s1
+  | .delIdx o k, s => bindR (evalT w o s) fun ov s1 => bindR (evalT w k s1) fun kv s2 => liftH (delProp w ov kv) s2
+  | .delV e, s => bindR (evalT w e s) fun _ s1 => (.val (.bool true), s1)
+  | .tcell site, s => (.val (match s.h.tcell site with | some g => .tpl site g | none => .undef), s)
+  | .setCell site e, s =>
+    bindR (evalT w e s) fun v s1 =>
+      match v with
+      | .tpl st g =>
+        if st = site then
+          (.val v, { s1 with h := { s1.h with tcell := fun j => if j = site then some g else s1.h.tcell j } })
+        else (.err .illFormed, s1)
+      | _ => (.err .illFormed, s1)    -- esbuild only stores what `__template` returned for this site
+  | .mkTpl site _, s => liftH (mkTplObj site) s
 
 -- ---------------------------------------------------------------- the lowering
 
@@ -375,11 +630,75 @@ def capture (full : T) (n : Nat) : T × T × Nat :=
   match full with
   | .id x => (.id x, .id x, n)
   | .lit v => (.lit v, .lit v, n)
+  | .this => (.this, .this, n)
   | _ => (.assign n full, .tmp n, n + 1)
 
 def fin (acc : T) : Option T → T
   | none => acc
   | some t => .ifEqNull t (.lit .undef) acc
+
+/-- the same with `true` as the value when the chain is cut short: a chain that ends in `delete` -/
+def finD (acc : T) : Option T → T
+  | none => acc
+  | some t => .ifEqNull t (.lit (.bool true)) acc
+
+/-- `_t || (_t = __template([strs]))` -/
+def tplExpr (t : TplSite) : T := .or (.tcell t.site) (.setCell t.site (.mkTpl t.site t.strs))
+
+/-- the argument list of an emitted call: number of arguments and three slots -/
+def targs (tpl : Option TplSite) (n : Nat) (A B : T) : Nat × T × T × T :=
+  match tpl with
+  | none => (min n 2, A, B, B)
+  | some t => (min n 2 + 1, tplExpr t, A, B)
+
+/-- the property read of a link -/
+def linkT (lk : Link) (o K : T) : T :=
+  match lk with
+  | .dot p => .dot o p
+  | .idx => .idx o K
+
+/-- a method call through a link -/
+def callM (lk : Link) (o K : T) (g : Nat × T × T × T) : T :=
+  match lk with
+  | .dot p => .callDot o p g.1 g.2.1 g.2.2.1 g.2.2.2
+  | .idx => .callIdx o K g.1 g.2.1 g.2.2.1 g.2.2.2
+
+def delT (lk : Link) (o K : T) : T :=
+  match lk with
+  | .dot p => .delDot o p
+  | .idx => .delIdx o K
+
+/-- lowerOptionalChain for a member expression that somebody is going to call with `.call(this, …)`
+(`storeThisArgForParentOptionalChain`, or the EDot / EIndex case of "Step 2" when the member expression is not
+part of a chain): the base of the last link is captured.  Returns (the member expression, its pending test, the
+expression for `this`, next free temporary). -/
+def memStore (optLink : Bool) (lk : Link) (oacc : T) (opend : Option T) (K : T) (m : Nat) : T × Option T × T × Nat :=
+  match optLink with
+  | false =>
+    let c := capture oacc m
+    (linkT lk c.1 K, opend, c.2.1, c.2.2)
+  | true =>
+    let c := capture (fin oacc opend) m
+    (linkT lk c.2.1 K, some c.1, c.2.1, c.2.2)
+
+/-- the call of a member expression (ECall visitor + lowerOptionalChain + lowerParenthesizedOptionalChain +
+lowerTemplateLiteral with a tag) -/
+def mcallLower (mode : CMode) (optLink : Bool) (lk : Link) (oacc : T) (opend : Option T) (K : T)
+    (g : Nat × T × T × T) (m : Nat) : T × Option T × Nat :=
+  match mode with
+  | .plain =>
+    match optLink with
+    | false => (callM lk oacc K g, opend, m)
+    | true =>
+      let c := capture (fin oacc opend) m
+      (callM lk c.2.1 K g, some c.1, c.2.2)
+  | .opt =>
+    let ms := memStore optLink lk oacc opend K m
+    let c2 := capture (fin ms.1 ms.2.1) ms.2.2.2
+    (.callCall c2.2.1 ms.2.2.1 g.1 g.2.1 g.2.2.1 g.2.2.2, some c2.1, c2.2.2)
+  | .paren =>
+    let ms := memStore optLink lk oacc opend K m
+    (.callCall (fin ms.1 ms.2.1) ms.2.2.1 g.1 g.2.1 g.2.2.1 g.2.2.2, none, ms.2.2.2)
 
 /-- an assignment target in the emitted language -/
 inductive TT where
@@ -461,6 +780,40 @@ def lowerC : S → Nat → T × Option T × Nat
     let ck := capture (fin rk.1 rk.2.1) co.2.2
     let res := opCallback op (.idx co.1 ck.1) (.idx co.2.1 ck.2.1) (fin rr.1 rr.2.1) ck.2.2
     (res.1, none, res.2)
+  | .this, n => (.this, none, n)
+  | .optIdx o k, n =>
+    let r := lowerC o n
+    let rk := lowerC k r.2.2
+    let c := capture (fin r.1 r.2.1) rk.2.2
+    (.idx c.2.1 (fin rk.1 rk.2.1), some c.1, c.2.2)
+  | .vcall opt tpl f nn a b, n =>
+    -- the target is visited first, then the arguments, then the chain is lowered
+    let rf := lowerC f n
+    let ra := lowerC a rf.2.2
+    let rb := lowerC b ra.2.2
+    let g := targs tpl nn (fin ra.1 ra.2.1) (fin rb.1 rb.2.1)
+    match opt with
+    | false => (.callV rf.1 g.1 g.2.1 g.2.2.1 g.2.2.2, rf.2.1, rb.2.2)
+    | true =>
+      let c := capture (fin rf.1 rf.2.1) rb.2.2
+      (.callV c.2.1 g.1 g.2.1 g.2.2.1 g.2.2.2, some c.1, c.2.2)
+  | .mcall mode tpl optLink lk o k nn a b, n =>
+    let ro := lowerC o n
+    let rk := lowerC k ro.2.2
+    let ra := lowerC a rk.2.2
+    let rb := lowerC b ra.2.2
+    mcallLower mode optLink lk ro.1 ro.2.1 (fin rk.1 rk.2.1) (targs tpl nn (fin ra.1 ra.2.1) (fin rb.1 rb.2.1)) rb.2.2
+  | .del optLink lk o k, n =>
+    let ro := lowerC o n
+    let rk := lowerC k ro.2.2
+    match optLink with
+    | false => (finD (delT lk ro.1 (fin rk.1 rk.2.1)) ro.2.1, none, rk.2.2)
+    | true =>
+      let c := capture (fin ro.1 ro.2.1) rk.2.2
+      (.ifEqNull c.1 (.lit (.bool true)) (delT lk c.2.1 (fin rk.1 rk.2.1)), none, c.2.2)
+  | .delVal a, n =>
+    let r := lowerC a n
+    (finD (.delV r.1) r.2.1, none, r.2.2)
 
 def lower (e : S) : T :=
   fin (lowerC e 0).1 (lowerC e 0).2.1
@@ -476,11 +829,22 @@ def showVal : Val → String
   | .str s => s!"(str {s})"
   | .sym i => s!"(sym {i})"
   | .obj i => s!"(obj {i})"
+  | .bool b => if b then "true" else "false"
+  | .fn i => s!"(fn {i})"
+  | .tpl st g => s!"(tpl {st} {g})"
 
 def tmpIndex (k : Nat) (m : List Nat) : Nat × List Nat :=
   match m.idxOf? k with
   | some i => (i, m)
   | none => (m.length, m ++ [k])
+
+/-- the first n of three arguments, each preceded by a space -/
+def showArgs (n : Nat) (fa fb fc : List Nat → String × List Nat) (m : List Nat) : String × List Nat :=
+  match n with
+  | 0 => ("", m)
+  | 1 => let (sa, m1) := fa m; (" " ++ sa, m1)
+  | 2 => let (sa, m1) := fa m; let (sb, m2) := fb m1; (" " ++ sa ++ " " ++ sb, m2)
+  | _ => let (sa, m1) := fa m; let (sb, m2) := fb m1; let (sc, m3) := fc m2; (" " ++ sa ++ " " ++ sb ++ " " ++ sc, m3)
 
 /-- temporaries are renumbered in order of first appearance so that only the structure is compared -/
 def showT : T → List Nat → String × List Nat
@@ -489,9 +853,9 @@ def showT : T → List Nat → String × List Nat
   | .call f a, m => let (sa, m1) := showT a m; (s!"(call (id f{f}) {sa})", m1)
   | .dot o p, m => let (so, m1) := showT o m; (s!"(dot {so} p{p})", m1)
   | .idx o k, m => let (so, m1) := showT o m; let (sk, m2) := showT k m1; (s!"(idx {so} {sk})", m2)
-  | .tmp k, m => let (i, m1) := tmpIndex k m; (s!"(tmp {i})", m1)
+  | .tmp k, m => let (i, m1) := tmpIndex (2 * k) m; (s!"(tmp {i})", m1)
   | .assign k e, m =>
-    let (i, m0) := tmpIndex k m
+    let (i, m0) := tmpIndex (2 * k) m
     let (se, m1) := showT e m0
     (s!"(set {i} {se})", m1)
   | .ifEqNull c y n, m =>
@@ -515,6 +879,57 @@ def showT : T → List Nat → String × List Nat
     match tail with
     | none => (s!"(call (dot {sb} concat) {ss})", m2)
     | some tl => (s!"(call (dot {sb} concat) {ss} (str {tl}))", m2)
+  | .this, m => ("this", m)
+  | .callV f n a b c, m =>
+    let (sf, m1) := showT f m
+    let (sa, m2) := showArgs n (showT a) (showT b) (showT c) m1
+    (s!"(call {sf}{sa})", m2)
+  | .callDot o p n a b c, m =>
+    let (so, m1) := showT o m
+    let (sa, m2) := showArgs n (showT a) (showT b) (showT c) m1
+    (s!"(call (dot {so} p{p}){sa})", m2)
+  | .callIdx o k n a b c, m =>
+    let (so, m1) := showT o m
+    let (sk, m2) := showT k m1
+    let (sa, m3) := showArgs n (showT a) (showT b) (showT c) m2
+    (s!"(call (idx {so} {sk}){sa})", m3)
+  | .callCall f t n a b c, m =>
+    let (sf, m1) := showT f m
+    let (st, m2) := showT t m1
+    let (sa, m3) := showArgs n (showT a) (showT b) (showT c) m2
+    (s!"(call (dot {sf} call) {st}{sa})", m3)
+  | .delDot o p, m => let (so, m1) := showT o m; (s!"(delete (dot {so} p{p}))", m1)
+  | .delIdx o k, m => let (so, m1) := showT o m; let (sk, m2) := showT k m1; (s!"(delete (idx {so} {sk}))", m2)
+  | .delV e, m => let (se, m1) := showT e m; (s!"(delete {se})", m1)
+  | .tcell site, m => let (i, m1) := tmpIndex (2 * site + 1) m; (s!"(tmp {i})", m1)
+  | .setCell site e, m =>
+    let (i, m0) := tmpIndex (2 * site + 1) m
+    let (se, m1) := showT e m0
+    (s!"(set {i} {se})", m1)
+  | .mkTpl _ strs, m => ("(call (id __template) (array" ++ String.join (strs.map fun x => s!" (str {x})") ++ "))", m)
+
+def parseTpl (spec : List Char) : Option (Option TplSite) :=
+  match spec with
+  | [] => some none
+  | ':' :: cs =>
+    match (String.ofList cs).splitOn "," with
+    | st :: strs => st.toNat?.map fun site => some ⟨site, strs⟩
+    | [] => none
+  | _ => none
+
+def parseLink (cs : List Char) : Option (Link × List Char) :=
+  match cs with
+  | 'i' :: rest => some (.idx, rest)
+  | 'd' :: rest =>
+    let ds := rest.takeWhile Char.isDigit
+    (String.ofList ds).toNat?.map fun p => (.dot p, rest.dropWhile Char.isDigit)
+  | _ => none
+
+def parseCount : Char → Option Nat
+  | '0' => some 0
+  | '1' => some 1
+  | '2' => some 2
+  | _ => none
 
 def parseOp : Char → Option AOp
   | 'o' => some .or
@@ -522,6 +937,17 @@ def parseOp : Char → Option AOp
   | 'n' => some .nul
   | 'p' => some .pow
   | _ => none
+
+/-- n ≤ 2 arguments; the unused slots are `undefined` literals -/
+def parseTail (_fuel : Nat) (n : Nat) (toks : List String) (p : List String → Option (S × List String)) :
+    Option (S × S × List String) :=
+  match n with
+  | 0 => some (.lit .undef, .lit .undef, toks)
+  | 1 => (p toks).map fun (a, r) => (a, .lit .undef, r)
+  | _ =>
+    match p toks with
+    | some (a, r) => (p r).map fun (b, r2) => (a, b, r2)
+    | none => none
 
 /-- source expressions arrive in prefix form, tokens separated by spaces:
 `undef` `null` `n5` `B5` (5n) `S:abc` ("abc") `v1` `c2 A` (f2(A)) `d3 O` (O.p3) `o3 O` (O?.p3) `I O K` (O[K]) `paren A`
@@ -532,6 +958,14 @@ def parseS : Nat → List String → Option (S × List String)
   | fuel + 1, tok :: rest =>
     match tok with
     | "undef" => some (.lit .undef, rest)
+    | "true" => some (.lit (.bool true), rest)
+    | "false" => some (.lit (.bool false), rest)
+    | "this" => some (.this, rest)
+    | "DV" => (parseS fuel rest).map (fun (a, r) => (.delVal a, r))
+    | "J" =>
+      match parseS fuel rest with
+      | some (o, r) => (parseS fuel r).map (fun (k, r2) => (.optIdx o k, r2))
+      | none => none
     | "null" => some (.lit .null, rest)
     | "paren" => (parseS fuel rest).map (fun (a, r) => (.paren a, r))
     | "nullish" =>
@@ -564,6 +998,38 @@ def parseS : Nat → List String → Option (S × List String)
       | 'o' :: cs =>
         match (String.ofList cs).toNat?, parseS fuel rest with
         | some p, some (o, r) => some (.optDot o p, r)
+        | _, _ => none
+      | 'C' :: oc :: nc :: spec =>
+        match (if oc == 'o' then some true else if oc == 'n' then some false else none), parseCount nc, parseTpl spec,
+            parseS fuel rest with
+        | some opt, some n, some tpl, some (f, r1) =>
+          match parseTail fuel n r1 (parseS fuel) with
+          | some (a, b, r3) => some (.vcall opt tpl f n a b, r3)
+          | none => none
+        | _, _, _, _ => none
+      | 'M' :: mc :: lc :: nc :: cs =>
+        match (match mc with | 'p' => some CMode.plain | 'o' => some CMode.opt | 'r' => some CMode.paren | _ => none),
+            (if lc == 'q' then some true else if lc == 'd' then some false else none), parseCount nc, parseLink cs with
+        | some mode, some optLink, some n, some (lk, spec) =>
+          match parseTpl spec, parseS fuel rest with
+          | some tpl, some (o, r1) =>
+            match (match lk with | .idx => parseS fuel r1 | .dot _ => some (.lit .undef, r1)) with
+            | some (k, r2) =>
+              match parseTail fuel n r2 (parseS fuel) with
+              | some (a, b, r4) => some (.mcall mode tpl optLink lk o k n a b, r4)
+              | none => none
+            | none => none
+          | _, _ => none
+        | _, _, _, _ => none
+      | 'D' :: lc :: cs =>
+        match (if lc == 'q' then some true else if lc == 'd' then some false else none), parseLink cs with
+        | some optLink, some (lk, []) =>
+          match parseS fuel rest with
+          | some (o, r1) =>
+            match (match lk with | .idx => parseS fuel r1 | .dot _ => some (.lit .undef, r1)) with
+            | some (k, r2) => some (.del optLink lk o k, r2)
+            | none => none
+          | none => none
         | _, _ => none
       | 'A' :: oc :: 'v' :: cs =>
         match parseOp oc, (String.ofList cs).toNat?, parseS fuel rest with
@@ -603,19 +1069,23 @@ what JavaScript says (the theorems are about these evaluators).  No BigInt here 
 def mix (a b : Nat) : Nat := (a * 1000003 + b * 7919 + 12345) % 1000000007
 
 def pickVal (c : Nat) : Val :=
-  match c % 12 with
+  match c % 16 with
   | 0 => .undef
   | 1 => .null
   | 2 => .num 0
   | 3 => .num 2
-  | 4 => .num 3
+  | 4 => .fn ((c / 16) % 3)
   | 5 => .str ""
   | 6 => .str "ab"
   | 7 => .str "1"
-  | 8 => .obj (10 + (c / 12) % 3)
-  | 9 => .obj (13 + (c / 12) % 2)
-  | 10 => .obj (15 + (c / 12) % 2)
-  | _ => .nan
+  | 8 => .obj (10 + (c / 16) % 3)
+  | 9 => .fn ((c / 16) % 3)
+  | 10 => .obj (15 + (c / 16) % 2)
+  | 11 => .nan
+  | 12 => .fn ((c / 16) % 3)
+  | 13 => .num 3
+  | 14 => .obj (13 + (c / 16) % 2)
+  | _ => .fn ((c / 16) % 3)
 
 /-- events that JavaScript code can observe: everything except property access on a primitive -/
 def isReal : Ev → Bool
@@ -623,6 +1093,8 @@ def isReal : Ev → Bool
   | .get _ _ => false
   | .set (.obj _) _ _ => true
   | .set _ _ _ => false
+  | .del (.obj _) _ => true
+  | .del _ _ => false
   | _ => true
 
 /-- property read on a primitive: characters of a string, otherwise undefined (no prototype property has one
@@ -634,6 +1106,15 @@ def primGet (o key : Val) : Val :=
     | some i => if toString i == ks && i < s.length then .str (String.ofList [s.toList.getD i ' ']) else .undef
     | none => .undef
   | _, _ => .undef
+
+/-- `delete` on a primitive (or a frozen function): false for the own properties of a string -/
+def primDel (o key : Val) : Val :=
+  match o, primStr key with
+  | .str s, some ks =>
+    match ks.toNat? with
+    | some i => .bool (!(toString i == ks && i < s.length))
+    | none => .bool (ks != "length")
+  | _, _ => .bool true
 
 def testDecide (c : Nat) (env : Env) : HRes × Env :=
   (if c % 13 == 0 then .throw (.num 99) else .ret (pickVal (c / 13)),
@@ -664,13 +1145,19 @@ def testWorld (seed : Nat) : World :=
       | .set (.obj i) _ _ => testDecide (mix seed (mix n (40 + i))) env
       | .set _ _ _ => (.ret .undef, env)
       | .toPrimS (.obj i) => testDecide (mix seed (mix n (200 + i))) env
+      | .toPrimS (.fn i) => testDecide (mix seed (mix n (250 + i))) env
       | .toPrimS _ => (.ret .undef, env)
       | .toPrimN (.obj i) => testDecide (mix seed (mix n (300 + i))) env
-      | .toPrimN _ => (.ret .undef, env),
+      | .toPrimN (.fn i) => testDecide (mix seed (mix n (350 + i))) env
+      | .toPrimN _ => (.ret .undef, env)
+      | .callf f _ _ => testDecide (mix seed (mix n (400 + f))) env
+      | .del (.obj i) _ => testDecide (mix seed (mix n (500 + i))) env
+      | .del o k => (.ret (primDel o k), env),
     primNum := fun v =>
       match v with
       | .null => some 0
       | .str s => strToNum s
+      | .bool b => some (if b then 1 else 0)
       | _ => none,
     numPow := fun a b =>
       match a, b with
@@ -680,11 +1167,14 @@ def testWorld (seed : Nat) : World :=
         else if a == 0 || a == 1 then some a
         else if b > 64 || tooBig a then some (2 ^ 60)    -- out of range either way: reported as SKIP
         else some (a ^ b.toNat)
-      | _, _ => none }
+      | _, _ => none,
+    thisVal := .obj 17 }
 
-/-- v1 and v3 start as objects, v0 and v2 as anything -/
+/-- v1 and v3 start as objects, v0 as a function, v2 as anything -/
 def testEnv (seed : Nat) : Env := fun x =>
-  if x % 2 == 1 then .obj (10 + (mix seed (900 + x)) % 7) else pickVal (mix seed (900 + x))
+  if x % 2 == 1 then .obj (10 + (mix seed (900 + x)) % 7)
+  else if x == 0 then .fn ((mix seed 900) % 3)
+  else pickVal (mix seed (900 + x))
 
 /-- the string contains 16 or more digits in a row (it may spell a number beyond 2^53) -/
 def longDigitRun (s : String) : Bool :=
@@ -699,6 +1189,9 @@ def semVal : Val → String × Bool
   | .str s => ("S<" ++ s ++ ">", longDigitRun s)
   | .sym i => (s!"Y{i}", true)
   | .obj i => (s!"O{i}", false)
+  | .bool b => (if b then "b1" else "b0", false)
+  | .fn i => (s!"F{i}", false)
+  | .tpl st g => (s!"T{st}#{g}", false)
 
 def semEv : Ev → String × Bool
   | .call f a => let (sa, b) := semVal a; (s!"call:{f}:{sa}", b)
@@ -706,6 +1199,11 @@ def semEv : Ev → String × Bool
   | .set o k v => let (so, b1) := semVal o; let (sv, b2) := semVal v; (s!"set:{so}:{(primStr k).getD "?"}:{sv}", b1 || b2)
   | .toPrimS o => let (so, b) := semVal o; (s!"prims:{so}", b)
   | .toPrimN o => let (so, b) := semVal o; (s!"primn:{so}", b)
+  | .callf f t args =>
+    let (st, b) := semVal t
+    let sa := args.map semVal
+    (s!"callf:{f}:{st}:" ++ ",".intercalate (sa.map (·.1)), b || sa.any (·.2))
+  | .del o k => let (so, b1) := semVal o; (s!"del:{so}:{(primStr k).getD "?"}", b1)
 
 def semRes : Res → String × Bool
   | .val v => let (sv, b) := semVal v; ("V:" ++ sv, b)
@@ -716,8 +1214,11 @@ def semRes : Res → String × Bool
 
 /-- result | observable trace | final v0..v3 ; "SKIP" when a number left the range in which integers are numbers
 (or a string got long enough to contain such a number) -/
-def semShow (r : Res) (h : H) : String :=
-  let (sr, b0) := semRes r
+def semShow (r1 r : Res) (h : H) : String :=
+  let (sr1, b1) := semRes r1
+  let (sr2, b2) := semRes r
+  let sr := sr1 ++ "," ++ sr2
+  let b0 := b1 || b2
   let evs := (h.tr.filter isReal).map semEv
   let vars := (List.range 4).map (fun x => semVal (h.env x))
   if b0 || evs.any (·.2) || vars.any (·.2) then "SKIP"
@@ -729,10 +1230,13 @@ def semDriver (args : List String) : String :=
     match seedS.toNat?, parseS 400 (src.splitOn " ") with
     | some seed, some (e, []) =>
       let w := testWorld seed
-      let h0 : H := ⟨[], testEnv seed⟩
-      let rs := evalS w e h0
-      let rt := evalT w (lower e) ⟨h0, fun _ => .undef⟩
-      semShow rs.1 rs.2 ++ " ## " ++ semShow rt.1 rt.2.h
+      let h0 : H := { tr := [], env := testEnv seed }
+      -- the expression is evaluated twice in a row (the second time from the state the first one left)
+      let rs1 := evalS w e h0
+      let rs := evalS w e rs1.2
+      let rt1 := evalT w (lower e) ⟨h0, fun _ => .undef⟩
+      let rt := evalT w (lower e) rt1.2
+      semShow rs1.1 rs.1 rs.2 ++ " ## " ++ semShow rt1.1 rt.1 rt.2.h
     | _, _ => "bad-op"
   | _ => "bad-op"
 
